@@ -152,6 +152,77 @@ inline void boundHistory(FrameHistory& h, size_t maxFrames = 300, size_t maxByte
     }
 }
 
+// Domain-aware mutation of a frame history (coverage-guided mode): adds a frame that stands in a relation to an existing one - the
+// continuation / last segment its endpoint expects next, a first segment of the same endpoint, an unsegmented frame of it, an exact copy,
+// or the same frame on a neighbouring endpoint - at a later position.
+inline void smartMutateHistory(FrameHistory& h, MutRng& rng)
+{
+    std::vector<size_t> cmp;
+    for (size_t i = 0; i < h.frames.size(); ++i)
+        if (h.frames[i].kind == 0)
+            cmp.push_back(i);
+    if (cmp.empty())
+    {
+        FrameRecipe f;
+        MsgRecipe m;
+        m.seg = 1;
+        m.len = 8;
+        f.msgs.push_back(m);
+        h.frames.push_back(f);
+        return;
+    }
+    const size_t i = cmp[rng.below(cmp.size())];
+    FrameRecipe f = h.frames[i];
+    // how many later frames of the same endpoint exist: the counter the endpoint would use next
+    uint16_t later = 0;
+    for (size_t k = i + 1; k < h.frames.size(); ++k)
+        if (h.frames[k].kind == 0 && h.frames[k].dev == f.dev && h.frames[k].stream == f.stream)
+            ++later;
+    f.truncateAt = -1;
+    f.trailing.clear();
+    if (f.msgs.empty())
+        f.msgs.push_back(MsgRecipe{});
+    f.msgs.resize(1);
+    MsgRecipe& m = f.msgs[0];
+    m.declared = -1;
+    m.useBytes = 0;
+    m.bytes.clear();
+    m.seed = static_cast<uint32_t>(rng.next());
+    size_t at = h.frames.size();
+    switch (rng.below(6))
+    {
+        case 0:  // the continuation the endpoint expects next, appended at the end
+            f.seq = static_cast<uint16_t>(f.seq + 1 + later);
+            m.seg = 2;
+            break;
+        case 1:  // the last segment
+            f.seq = static_cast<uint16_t>(f.seq + 1 + later);
+            m.seg = 3;
+            break;
+        case 2:  // a new first segment of the same endpoint
+            f.seq = static_cast<uint16_t>(f.seq + 1 + later);
+            m.seg = 1;
+            break;
+        case 3:  // an unsegmented frame of the same endpoint
+            f.seq = static_cast<uint16_t>(f.seq + 1 + later);
+            m.seg = 0;
+            break;
+        case 4:  // an exact copy a few positions later
+            f = h.frames[i];
+            at = std::min(h.frames.size(), i + 1 + rng.below(4));
+            break;
+        default:  // the same frame on a neighbouring endpoint (stream + 1 or device + 1), right behind it
+            f = h.frames[i];
+            if (rng.below(2))
+                f.stream = static_cast<uint8_t>(f.stream + 1);
+            else
+                f.dev = static_cast<uint16_t>(f.dev + 1);
+            at = i + 1;
+            break;
+    }
+    h.frames.insert(h.frames.begin() + static_cast<long>(at), f);
+}
+
 // Compare a decoded packet with what the reference reassembler says must be delivered.
 inline Verdict compareDelivered(const lib::Packet& p, const model::Delivered& e, const std::string& where, bool compareTypeAndBytes = true)
 {
